@@ -2,6 +2,7 @@ package rest
 
 import (
 	"net/http"
+	"sync"
 	"time"
 
 	"github.com/gorilla/websocket"
@@ -35,9 +36,10 @@ var upgraderV1 = websocket.Upgrader{
 
 // msgListenerV1 handles messages from the msghub
 type msgListenerV1 struct {
-	hub     *msghub.Hub                // Global message hub
-	c       chan event.MessageMetadata // Queue of messages from Receive()
-	mailbox string                     // Name of mailbox to monitor, "" == all mailboxes
+	hub       *msghub.Hub                // Global message hub
+	c         chan event.MessageMetadata // Queue of messages from Receive()
+	mailbox   string                     // Name of mailbox to monitor, "" == all mailboxes
+	closeOnce sync.Once                  // Close may be called by both the reader and the writer.
 }
 
 // newMsgListenerV1 creates a listener and registers it.  Optional mailbox parameter will restrict
@@ -148,13 +150,10 @@ func (ml *msgListenerV1) WSWriter(conn *websocket.Conn) {
 
 // Close removes the listener registration
 func (ml *msgListenerV1) Close() {
-	select {
-	case <-ml.c:
-		// Already closed
-	default:
+	ml.closeOnce.Do(func() {
 		ml.hub.RemoveListener(ml)
 		close(ml.c)
-	}
+	})
 }
 
 // MonitorAllMessagesV1 is a web handler which upgrades the connection to a websocket and notifies
